@@ -56,8 +56,8 @@ type vfAsked struct {
 // vfUpstream is the in-process upstream double.  It records every question and
 // answers from answer (or the default fixture).
 type vfUpstream struct {
-	mu     sync.Mutex
-	asked  []vfAsked
+	mu    sync.Mutex
+	asked []vfAsked
 	// last is a copy of the last response handed out.
 	last   *dns.Msg
 	answer func(req *dns.Msg) (resp *dns.Msg)
@@ -167,10 +167,10 @@ type vfDHCP struct {
 	macByIP map[netip.Addr]net.HardwareAddr
 }
 
-func (d *vfDHCP) HostByIP(_ netip.Addr) (host string)         { return "" }
-func (d *vfDHCP) IPByHost(_ string) (ip netip.Addr)           { return netip.Addr{} }
-func (d *vfDHCP) Enabled() (ok bool)                          { return d.enabled }
-func (d *vfDHCP) Leases() (leases []*dhcpsvc.Lease)           { return nil }
+func (d *vfDHCP) HostByIP(_ netip.Addr) (host string) { return "" }
+func (d *vfDHCP) IPByHost(_ string) (ip netip.Addr)   { return netip.Addr{} }
+func (d *vfDHCP) Enabled() (ok bool)                  { return d.enabled }
+func (d *vfDHCP) Leases() (leases []*dhcpsvc.Lease)   { return nil }
 func (d *vfDHCP) MACByIP(ip netip.Addr) (mac net.HardwareAddr) {
 	return d.macByIP[ip]
 }
@@ -232,6 +232,9 @@ type vfWorldConf struct {
 	QLogMemSize    uint
 	FindClient     func(ids []string) (c *querylog.Client, err error)
 	ShouldCountCli func(ids []string) (ok bool)
+
+	// CacheSize, if not zero, enables the DNS cache of the proxy (bytes).
+	CacheSize uint32
 
 	// WithSafeSearch configures the default safe-search service as home does.
 	WithSafeSearch bool
@@ -373,25 +376,25 @@ func vfNewWorld(c *vfWorldConf) (w *vfWorld, err error) {
 	}
 
 	fconf := &filtering.Config{
-		BlockingIPv4:         c.BlockingIPv4,
-		BlockingIPv6:         c.BlockingIPv6,
-		ApplyClientFiltering: applyClient,
-		BlockedServices:      &filtering.BlockedServices{Schedule: sched, IDs: c.ServiceIDs},
-		ConfigModified:       func() {},
-		HTTPRegister:         c.HTTPRegister,
-		HTTPClient:           &http.Client{Timeout: time.Second},
-		DataDir:              dir,
-		BlockingMode:         mode,
-		Rewrites:             c.Rewrites,
-		Filters:              blockY,
-		WhitelistFilters:     allowY,
-		UserRules:            c.UserRules,
-		SafeFSPatterns:       c.SafeFS,
-		BlockedResponseTTL:   ttl,
-		FilteringEnabled:     c.FilteringEnabled,
-		ProtectionEnabled:    c.ProtectionEnabled,
+		BlockingIPv4:            c.BlockingIPv4,
+		BlockingIPv6:            c.BlockingIPv6,
+		ApplyClientFiltering:    applyClient,
+		BlockedServices:         &filtering.BlockedServices{Schedule: sched, IDs: c.ServiceIDs},
+		ConfigModified:          func() {},
+		HTTPRegister:            c.HTTPRegister,
+		HTTPClient:              &http.Client{Timeout: time.Second},
+		DataDir:                 dir,
+		BlockingMode:            mode,
+		Rewrites:                c.Rewrites,
+		Filters:                 blockY,
+		WhitelistFilters:        allowY,
+		UserRules:               c.UserRules,
+		SafeFSPatterns:          c.SafeFS,
+		BlockedResponseTTL:      ttl,
+		FilteringEnabled:        c.FilteringEnabled,
+		ProtectionEnabled:       c.ProtectionEnabled,
 		ProtectionDisabledUntil: c.DisabledUntil,
-		CacheTime:            30,
+		CacheTime:               30,
 	}
 
 	// hash-prefix checkers that never block (the real ones need the network)
@@ -507,6 +510,7 @@ func vfNewWorld(c *vfWorldConf) (w *vfWorld, err error) {
 			AllowedClients:    c.Allowed,
 			DisallowedClients: c.Disallowed,
 			BlockedHosts:      c.BlockedHosts,
+			CacheSize:         c.CacheSize,
 		},
 		ConfigModified:  func() {},
 		HTTPRegister:    c.HTTPRegister,
